@@ -123,6 +123,9 @@ func dereferenceJSONPointer(s *Schema, sptr string) (_ *Schema, err error) {
 		}
 	}
 	if s, ok := v.Interface().(*Schema); ok {
+		if s == nil {
+			return nil, errors.New("refers to a schema keyword that is not present")
+		}
 		return s, nil
 	}
 	return nil, fmt.Errorf("does not refer to a schema, but to a %s", v.Type())
